@@ -68,3 +68,70 @@ Proof.
       * rewrite E1, E2. now apply negb_true_iff, name_eqb_neq.
     + unfold sand. pairs. lia.
 Qed.
+
+(* ---------- Annotation.get_overlap(), every precision ---------- *)
+Section AnnOverlapEps.
+Variable eps : Z.
+Hypothesis Heps : 0 <= eps.
+Variable a : ann.
+Hypothesis W : WF eps (a_tracks a).
+
+(* the intersections the sweep merges: s & s' for two tracks carrying different labels *)
+Definition label_overlaps : list seg :=
+  tl_of eps (map (fun p : (seg * name) * (seg * name) => sand (fst (fst p)) (fst (snd p)))
+    (filter (fun p : (seg * name) * (seg * name) => let '((s, t), (s', t')) := p in
+              match getitem a s t, getitem a s' t' with Some l1, Some l2 => negb (name_eqb l1 l2) | _, _ => false end)
+            (co_iter_ann eps a a))).
+
+Lemma get_overlap_ann_unfold : get_overlap_ann eps a None = support eps 0 label_overlaps.
+Proof. reflexivity. Qed.
+
+Lemma label_overlaps_In y :
+  In y label_overlaps <->
+  exists s t l s' t' l', getitem a s t = Some l /\ getitem a s' t' = Some l' /\ l <> l' /\
+                         y = sand s s' /\ nonempty eps y = true.
+Proof.
+  unfold label_overlaps. rewrite tl_of_In, in_map_iff. split.
+  - intros [[[[s t] [s' t']] [E Ip]] Hy]. cbn [fst snd] in E. apply filter_In in Ip as [Ip Hl].
+    destruct (getitem a s t) as [l|] eqn:E1; [|discriminate]. destruct (getitem a s' t') as [l'|] eqn:E2; [|discriminate].
+    apply negb_true_iff, name_eqb_neq in Hl. exists s, t, l, s', t', l'. repeat split; auto.
+  - intros [s [t [l [s' [t' [l' [E1 [E2 [Hn [-> Hy]]]]]]]]]]. split; [|exact Hy].
+    exists ((s, t), (s', t')). split; [reflexivity|]. apply filter_In. split.
+    + apply (ann_co_iter_exact eps Heps a a s t s' t' W W). repeat split; auto.
+      * now apply (getitem_tracks a s t l).
+      * now apply (getitem_tracks a s' t' l').
+    + rewrite E1, E2. now apply negb_true_iff, name_eqb_neq.
+Qed.
+
+Theorem ann_get_overlap_eps_shape :
+  separated eps 0 (get_overlap_ann eps a None) /\ Forall (ne eps) (get_overlap_ann eps a None).
+Proof.
+  rewrite get_overlap_ann_unfold.
+  assert (Wl : wf eps label_overlaps) by apply wf_tl_of.
+  rewrite (support_is_support_iter eps 0 Heps _ Wl). exact (support_iter_separated eps 0 Heps _ Wl).
+Qed.
+
+Theorem ann_get_overlap_eps_sound k : covers_cell (get_overlap_ann eps a None) k ->
+  two_labels_active a k \/ in_bridged_gap eps 0 label_overlaps k.
+Proof.
+  rewrite get_overlap_ann_unfold.
+  assert (Wl : wf eps label_overlaps) by apply wf_tl_of.
+  rewrite (support_is_support_iter eps 0 Heps _ Wl). intro H.
+  destruct (support_iter_cover_sound eps 0 Heps _ k Wl H) as [[y [Iy Hk]]|G]; [left | now right].
+  apply label_overlaps_In in Iy as [s [t [l [s' [t' [l' [E1 [E2 [Hn [-> _]]]]]]]]]].
+  exists s, t, l, s', t', l'. unfold sand in Hk. pairs. repeat split; auto; lia.
+Qed.
+
+Theorem ann_get_overlap_eps_complete s t l s' t' l' :
+  getitem a s t = Some l -> getitem a s' t' = Some l' -> l <> l' -> nonempty eps (sand s s') = true ->
+  exists o, In o (get_overlap_ann eps a None) /\ st o <= Z.max (st s) (st s') /\ Z.min (en s) (en s') <= en o.
+Proof.
+  intros E1 E2 Hn Hy. rewrite get_overlap_ann_unfold.
+  assert (Wl : wf eps label_overlaps) by apply wf_tl_of.
+  rewrite (support_is_support_iter eps 0 Heps _ Wl).
+  assert (Iy : In (sand s s') label_overlaps).
+  { apply label_overlaps_In. exists s, t, l, s', t', l'. repeat split; auto. }
+  destruct (support_iter_includes eps 0 Heps _ _ Wl Iy) as [o [Io So]]. apply sin_iff in So.
+  exists o. split; [exact Io|]. unfold sand in So. pairs. lia.
+Qed.
+End AnnOverlapEps.
